@@ -16,7 +16,7 @@ ASSUMPTIONS = [
 OPS = ["ret", "raise", ("T", 0), ("T", 1), ("W", 0, True), ("W", 0, False), ("S", 0), ("F", 0), ("J", True), ("J", False),
        "Sp", ("CB", 0)]
 # third alphabet: falsy return values and exceptions that are not Exception subclasses
-OPS3 = ["ret", "ret0", "raise", "raiseB", "raiseSP", ("T", 0), ("T", 1), ("J", True), ("J", False), ("W", 0, True), ("S", 0), "Sp"]
+OPS3 = ["ret", "ret0", "raise", "raiseB", "raiseSP", "raiseIE", ("T", 0), ("T", 1), ("J", True), ("J", False), ("W", 0, True), ("S", 0), "Sp"]
 # fourth alphabet: payloads with a liberal ==, exception objects as values of successful events
 OPS4 = ["ret", ("T", 0), ("W", 0, True), ("S", 0), ("SX", 0), ("F", 0), ("J", True), ("CB", 0)]
 OPS2 = ["ret", "raise", ("T", 0), ("W", 0, True), ("W", 1, False), ("S", 0), ("F", 0), ("S", 1), ("F", 1), ("J", True), ("CB", 1)]
@@ -30,7 +30,7 @@ def plan(tier, seed):
     cfgs = [dict(depth=d, ops=1, nproc=2), dict(depth=d, ops=2, nproc=2), dict(depth=d - 1, ops=1, nproc=3), dict(depth=d - 1, ops=3, nproc=2),
             # process events without any callback of ours: a terminated process must be processed even when nobody waits yet
             dict(depth=d - 1, ops=1, nproc=2, noprobe=1), dict(depth=d - 1, ops=3, nproc=2, noprobe=1),
-            dict(depth=d - 1, ops=4, nproc=2, liberal=1), dict(depth=d - 1, ops=4, nproc=2),
+            dict(depth=d - 1, ops=4, nproc=2, liberal=1), dict(depth=d - 1, ops=4, nproc=2), dict(depth=d - 1, ops=1, nproc=2, duck=1),
             # one process consuming 1200 already processed events in a row, then 1200 fresh ones (a single long execution)
             dict(endurance=1200)]
     return {"cfgs": cfgs, "budget": None, "bound": "D<=%d with 2 initial processes (alphabets: one / two shared events; falsy returns + non-Exception BaseException at D-1), D<=%d with 3; <=4 processes" % (d, d - 1)}
@@ -78,7 +78,7 @@ def execute(ch, cfg):
     if cfg.get("endurance"):
         return endurance(cfg)
     k = KC.K(ch, {1: OPS, 2: OPS2, 3: OPS3, 4: OPS4}[cfg["ops"]], cfg["depth"], nproc=cfg["nproc"], reaction=False, probe_procs=not cfg.get("noprobe"),
-             liberal_values=bool(cfg.get("liberal"))).run()
+             liberal_values=bool(cfg.get("liberal")), duck=bool(cfg.get("duck"))).run()
     res = Result()
     res.digest = k.digest()
     viol, nt = KC.check_delivery(k)
